@@ -95,10 +95,10 @@ func zzKeccakCheck(turbo bool) {
 	}
 }
 
-//zz: prop=C15 tier=quick backend=bv timeout=300
+//zz: prop=C15 tier=quick backend=bv timeout=120 budget=600
 func ZZ_C15_KeccakF1600_12rounds() { zzKeccakCheck(true) }
 
-//zz: prop=C15 tier=quick backend=bv timeout=300
+//zz: prop=C15 tier=quick backend=bv timeout=120 budget=600
 func ZZ_C15_KeccakF1600_24rounds() { zzKeccakCheck(false) }
 
 // round-constant table against the LFSR definition (concrete)
